@@ -366,10 +366,10 @@ def plan(mc_q, mc_t, emit_q, emit_t, walks_q, walks_t, reach=(), scen=(), wide=N
 W_Q = [("honest", 8, 60), ("chaos", 10, 60), ("admin", 6, 60)]
 W_T = [("honest", 120, 70), ("chaos", 160, 70), ("admin", 80, 70)]
 PLANS = {
-    "C01": plan(["flow_q", "ibc_q"], ["flow_t", "ibc_t", "flow_treasury_t"], ["flow_q"], ["flow_t", "ibc_t"], W_Q, W_T, reach=["HonestOutstanding"]),
+    "C01": plan(["flow_q", "ibc_q"], ["flow_t", "ibc_t", "flow_treasury_t"], ["flow_q", "ibc_q"], ["flow_t", "ibc_t"], W_Q, W_T, reach=["HonestOutstanding"]),
     "C02": plan(["flow_q", "ibc_q", "fees_q"], ["flow_t", "ibc_t", "flow_treasury_t", "fees_t"], ["flow_treasury_q", "fees_q", "ibc_q"],
                 ["flow_t", "ibc_t", "flow_treasury_t", "fees_t"], W_Q, W_T, reach=["Received"]),
-    "C03": plan(["flow_q", "ibc_q"], ["flow_t", "ibc_t"], ["flow_q"], ["flow_t", "ibc_t"], W_Q, W_T),
+    "C03": plan(["flow_q", "ibc_q"], ["flow_t", "ibc_t"], ["flow_q", "ibc_q"], ["flow_t", "ibc_t"], W_Q, W_T),
     "C04": plan(["flow_q"], ["flow_t"], ["flow_q"], ["flow_t"], W_Q, W_T),
     "C05": plan(["flow_q"], ["flow_t"], ["flow_q"], ["flow_t"], W_Q, W_T, reach=["Received"]),
     "C06": plan(["flow_q"], ["flow_t"], ["flow_q"], ["flow_t"], W_Q, W_T, reach=["Received"]),
